@@ -3,8 +3,8 @@ import NdcubeModel.Model.Wcs
 /-!
 # Cropping by world points
 
-Mirrors `get_crop_item_from_points` (ndcube/utils/cube.py) after the `fix:` commit that clips
-indices at 0: per point, the pixel axes that receive an input, the per-point sub-WCS
+Mirrors `get_crop_item_from_points` (ndcube/utils/cube.py) after the `fix:` commits that clip
+the box at the array's ends: per point, the pixel axes that receive an input, the per-point sub-WCS
 (`SlicedLowLevelWCS` with `0` on the axes without input), `world_to_array_index_values`
 (`floor(x + 1/2)`), and per axis `min .. max + 1` over the points that address it.
 World values are rationals here; the coordinate functions stay parameters.
@@ -18,12 +18,14 @@ def nearest (x : Rat) : Int := (x + 1 / 2).floor
 def listMin (i : Int) (is : List Int) : Int := is.foldl min i
 def listMax (i : Int) (is : List Int) : Int := is.foldl max i
 
-/-- the item of one array axis from the indices of the points that address it -/
-def cropAxis (keepdims : Bool) : List Int → Item
+/-- the item of one array axis of length `n` from the indices of the points that address it:
+the box is clipped at both ends of the array (the start by the `fix:` commit e173fdc, the end by
+the later one that makes a one-pixel extent at the end of an axis recognisable) -/
+def cropAxis (keepdims : Bool) (n : Nat) : List Int → Item
   | [] => Item.all
   | i :: is =>
     let lo := max (listMin i is) 0
-    let hi := max (listMax i is + 1) 0
+    let hi := min (max (listMax i is + 1) 0) n
     if hi - lo = 1 ∧ keepdims = false then .int lo else .slice (some lo) (some hi) none
 
 /-- all the points that address an axis of length `n` lie off it (before the start, or at or
@@ -39,7 +41,7 @@ def cropAxisOutside (n : Nat) : List Int → Bool
 array of the given shape; `ValueError` when all points are off the array along some axis or
 when the result would be a single element. -/
 def cropItem (shape : List Nat) (per : List (List Int)) (keepdims : Bool) : Except Err (List Item) :=
-  let items := per.map (cropAxis keepdims)
+  let items := List.zipWith (cropAxis keepdims) shape per
   if (List.zipWith cropAxisOutside shape per).any id then .error .valueError
   else if items.all Item.isInt then .error .valueError else .ok items
 
